@@ -205,9 +205,12 @@ def _new_value(ch, key, old, cls_name=None):
     if isinstance(old, (int, numpy.integer)):
         if leaf in NONE_DOMAIN and ch.boolean("w", 0.3, "to-none"):
             return True, None
-        return True, int(old) + 1 + ch.draw("w", 2, "int-delta")
-    if isinstance(old, float):
-        return True, old * 0.5 + 0.125
+        v = int(old) + 1 + ch.draw("w", 2, "int-delta")
+        # what numpy.arange / a grid of numpy values hands to set_params
+        return True, (numpy.int64(v) if ch.boolean("w", 0.2, "numpy-int") else v)
+    if isinstance(old, (float, numpy.floating)):
+        v = float(old) * 0.5 + 0.125
+        return True, (numpy.float64(v) if ch.boolean("w", 0.25, "numpy-float") else v)
     if isinstance(old, str):
         if leaf in STR_DOMAIN and "__" not in key and not key.startswith(("c_", "e_")):
             alts = [v for v in STR_DOMAIN[leaf] if v != old]
